@@ -45,21 +45,24 @@ type Link struct {
 }
 
 type Doc struct {
-	Host      int    `json:"host"`
-	Name      string `json:"name"`
-	Spelling  string `json:"spelling,omitempty"` // how this document's own id spells its authority: "" (as is) | localhost | upper
-	Type      string `json:"type"`
-	ClaimDoc  int    `json:"claim_doc"`           // -1: id is its own URL; >= 0: claims the id of that document (forged when hosts differ); -2: no id
-	Links     []Link `json:"links,omitempty"`
-	Redirect  bool   `json:"redirect,omitempty"`  // this URL redirects to document Target (Links unused)
+	Host     int    `json:"host"`
+	Name     string `json:"name"`
+	Spelling string `json:"spelling,omitempty"` // how this document's own id spells its authority: "" (as is) | localhost | upper
+	Type     string `json:"type"`
+	ClaimDoc int    `json:"claim_doc"` // -1: id is its own URL; >= 0: claims the id of that document (forged when hosts differ); -2: no id
+	Links    []Link `json:"links,omitempty"`
+	// Extras: properties that merely *name* another document (partOf, context, url, origin…): strings the serving host
+	// wrote, which give no authority over the named location
+	Extras    []Link `json:"extras,omitempty"`
+	Redirect  bool   `json:"redirect,omitempty"` // this URL redirects to document Target (Links unused)
 	RedirTo   int    `json:"redir_to,omitempty"`
 	RedirForm string `json:"redir_form,omitempty"` // abs | path
 }
 
 type Case struct {
-	Docs    []Doc `json:"docs"`
-	Fetches []int `json:"fetches"` // documents fetched top-level, in order
-	EndToEnd bool `json:"end_to_end,omitempty"`
+	Docs     []Doc `json:"docs"`
+	Fetches  []int `json:"fetches"` // documents fetched top-level, in order
+	EndToEnd bool  `json:"end_to_end,omitempty"`
 }
 
 func (c Case) authority(i int) string {
@@ -101,6 +104,9 @@ func (c Case) object(i int, prefix string, depth int, enclosingHost int) map[str
 			claimed = d.ClaimDoc
 		}
 		m["attributedTo"] = "https://" + c.authority(claimed) + prefix + "/resident"
+	}
+	for _, e := range d.Extras {
+		m[e.Key] = c.urlOf(e.Target, prefix)
 	}
 	for _, l := range d.Links {
 		var v any
@@ -193,9 +199,9 @@ func (c Case) install(prefix string) {
 var followKeys = []string{"attributedTo", "actor", "object", "inReplyTo", "replies", "first", "next", "items", "orderedItems", "outbox", "audience"}
 
 type accepted struct {
-	via  string
-	id   *url.URL
-	obj  map[string]any
+	via string
+	id  *url.URL
+	obj map[string]any
 }
 
 // drive calls client.FetchUnknown the way its callers do: top-level with no source, then on every
@@ -353,14 +359,85 @@ func gen(t *rapid.T) Case {
 			d.Redirect = true
 			d.RedirTo = rapid.IntRange(0, n-1).Draw(t, "redirto")
 			d.RedirForm = rapid.SampledFrom([]string{"abs", "path"}).Draw(t, "redirform")
-		} else {
-			nl := rapid.IntRange(0, 3).Draw(t, "nlinks")
-			for k := 0; k < nl; k++ {
-				d.Links = append(d.Links, Link{Key: rapid.SampledFrom(followKeys).Draw(t, "key"), Target: rapid.IntRange(0, n-1).Draw(t, "target"),
-					Shape: rapid.SampledFrom([]string{"ref", "relref", "stub", "embed", "embed", "embed-noid", "wrapped", "wrapped", "stub-url"}).Draw(t, "shape"), InList: rapid.Bool().Draw(t, "inlist")})
-			}
 		}
 		c.Docs = append(c.Docs, d)
+	}
+	shapes := []string{"ref", "relref", "stub", "embed", "embed", "embed-noid", "wrapped", "wrapped", "stub-url"}
+	ofType := func(want ...string) []int {
+		out := []int{}
+		for i, d := range c.Docs {
+			for _, w := range want {
+				if d.Type == w && !d.Redirect {
+					out = append(out, i)
+				}
+			}
+		}
+		return out
+	}
+	for i := range c.Docs {
+		d := &c.Docs[i]
+		if d.Redirect {
+			continue
+		}
+		nl := rapid.IntRange(0, 3).Draw(t, "nlinks")
+		typed := rapid.IntRange(0, 9).Draw(t, "typedlinks") < 6
+		for k := 0; k < nl; k++ {
+			l := Link{Key: rapid.SampledFrom(followKeys).Draw(t, "key"), Target: rapid.IntRange(0, n-1).Draw(t, "target"),
+				Shape: rapid.SampledFrom(shapes).Draw(t, "shape"), InList: rapid.Bool().Draw(t, "inlist")}
+			if typed {
+				// links as the vocabulary means them, so that whole chains (actor → outbox → page → activity → post → author) are common
+				var keys []string
+				var want []string
+				switch d.Type {
+				case "Person", "Group":
+					keys, want = []string{"outbox"}, []string{"OrderedCollection", "Collection", "OrderedCollectionPage"}
+				case "OrderedCollection", "Collection":
+					if rapid.Bool().Draw(t, "viafirst") {
+						keys, want = []string{"first"}, []string{"OrderedCollectionPage"}
+					} else {
+						keys, want = []string{"items"}, []string{"Note", "Article", "Create", "Announce"}
+					}
+				case "OrderedCollectionPage":
+					if rapid.IntRange(0, 3).Draw(t, "vianext") == 0 {
+						keys, want = []string{"next"}, []string{"OrderedCollectionPage"}
+					} else {
+						keys, want = []string{"items"}, []string{"Note", "Article", "Create", "Announce"}
+					}
+				case "Create", "Announce":
+					if rapid.Bool().Draw(t, "actorside") {
+						keys, want = []string{"actor"}, []string{"Person", "Group"}
+					} else {
+						keys, want = []string{"object"}, []string{"Note", "Article"}
+					}
+				default:
+					switch rapid.IntRange(0, 2).Draw(t, "postlink") {
+					case 0:
+						keys, want = []string{"inReplyTo"}, []string{"Note", "Article"}
+					case 1:
+						keys, want = []string{"replies"}, []string{"OrderedCollection", "Collection", "OrderedCollectionPage"}
+					default:
+						keys, want = []string{"audience"}, []string{"Group", "Person"}
+					}
+				}
+				l.Key = keys[0]
+				if cands := ofType(want...); len(cands) > 0 {
+					l.Target = rapid.SampledFrom(cands).Draw(t, "typedtarget")
+				}
+				l.InList = l.Key == "items" || (l.InList && l.Key != "first" && l.Key != "next" && l.Key != "outbox" && l.Key != "replies")
+			}
+			if l.Key == "items" || l.Key == "orderedItems" {
+				l.Key = "items"
+				if strings.HasPrefix(d.Type, "Ordered") {
+					l.Key = "orderedItems"
+				}
+			}
+			d.Links = append(d.Links, l)
+		}
+		ne := rapid.SampledFrom([]int{0, 0, 1, 2}).Draw(t, "nextras")
+		for k := 0; k < ne; k++ {
+			d.Extras = append(d.Extras, Link{Key: rapid.SampledFrom([]string{"partOf", "context", "url", "origin", "source", "atomUri", "generator", "target"}).Draw(t, "extrakey"),
+				Target: rapid.IntRange(0, n-1).Draw(t, "extratarget")})
+		}
 	}
 	if c.Docs[0].ClaimDoc == 0 {
 		c.Docs[0].ClaimDoc = -1
